@@ -58,20 +58,26 @@ RULE = ("wallets 1 <= m <= n <= 4 over the six script types built from HD keys t
         "both-UTXO records; a case is non-trivial when the PSBT has at least one input map entry; distinct = distinct "
         "(operation, request) pairs and distinct (wallet, history) pairs")
 CLAUSES = {
-    "re-serialisation is idempotent (serialize(parse(serialize p)) = serialize p), parse succeeds on serialiser output":
-        "proved at the map level (reserialize_idempotent, in_map_roundtrip, out_map_roundtrip, global_map_roundtrip) "
-        "relative to the transaction / script codec laws (C04); bytes compared after every step by correspondence",
-    "what the first serialisation drops": "proved (serialize_drops_foreign_sigs, serialize_prefers_non_witness_utxo)",
+    "re-serialisation is idempotent (serialize(parse(serialize p)) = serialize p); parse succeeds on serialiser output":
+        "proved at the map level for every well-formed PSBT value and explicit network (reserialize_idempotent, "
+        "reserialize_normal_form, in_map_roundtrip, out_map_roundtrip, global_map_roundtrip); the transaction / script codec "
+        "laws are hypotheses (C04); that parser output is well-formed, and the inferred-network case, rest on the byte "
+        "comparison after every step (predicate reserialize_idempotent)",
+    "what the first serialisation drops":
+        "proved (serialize_drops_foreign_sigs, serialize_prefers_non_witness_utxo, serialize_keeps_written_sigs)",
     "unsigned transaction: non-witness format, empty scriptSigs":
-        "proved (global_map_carries_legacy_tx, validate_rejects_scriptsig); finding F10a fixed",
+        "proved (global_map_carries_legacy_tx, validate_rejects_scriptsig, parse_rejects_scriptsig); finding F10a fixed",
     "combine commutative / associative / idempotent up to serialisation; every permutation and combine tree gives the same bytes":
-        "proved (combine_comm_ser, combine_assoc_ser, combine_idem_ser, combine_tree_bytes_independent)",
-    "finalize raises iff fewer than m script keys have signatures, else emits the first m in script order (function of the set)":
-        "proved (finalize_multisig_iff, finalize_emits_first_m, finalize_set_only); finding F10d fixed",
-    "extracted transaction verifies iff >= m signers signed": "correspondence-only (Tx.verify of the real library; script execution is C06)",
-    "non-verifying partial signatures are rejected on load": "proved for the model given sigOK (validate_rejects_bad_sig); "
-        "sigOK itself is the real check_sig_* (C01/C05), observation O10b excluded",
-    "update / create": "correspondence-only",
+        "proved (combine_comm_ser, combine_assoc_ser, combine_idem_ser, combine_tree_bytes_independent, combine_tree_sigs)",
+    "finalize raises iff fewer than m script keys have signatures, else emits the first m in script order; a function of the set":
+        "proved (finalize_multisig_iff, finalize_emits_first_m, finalize_p2sh_iff, finalize_p2sh_emits_first_m, "
+        "finalize_single_key_iff, finalize_set_only, script_sigs_le_sigs); finding F10d fixed (F10d_unrepaired_undersigns)",
+    "extracted transaction verifies iff >= m signers signed":
+        "correspondence-only (Tx.verify of the real library on every signer subset; script execution is C06)",
+    "non-verifying partial signatures are rejected on load":
+        "proved relative to the signature check (validate_rejects_bad_sig: sigOK false => PSBT.validate / parse refuse); "
+        "sigOK is the real check_sig_* (C01/C05); observation O10b (no UTXO: kept) excluded by hypothesis",
+    "create / update / sign (which inputs a signer signs)": "correspondence-only",
 }
 TRUSTED = [
     "transaction codec abstract in the theorems (TxCodec laws as hypotheses); the driver instantiates it with "
